@@ -59,6 +59,43 @@ def harness(tier, seed):
                     viol.append((f"ttp/{o}/raises-on-accepted-plan", info, repr(ex)))
             if len(samples) < 2:
                 samples.append(info)
+    # ---- dynamic control: a system with TWO control values driven by a generated two-output network through the
+    # figure-of-merit objectives (all bundled systems have one control value).  Every array a controller kernel gets
+    # is sized by the caller from the controller's declared dimensions.
+    try:
+        from moptipyapps.dynamic_control.controllers.ann import make_ann
+        from moptipyapps.dynamic_control.instance import Instance as DCI
+        from moptipyapps.dynamic_control.objective import FigureOfMerit, FigureOfMeritLE
+        from moptipyapps.dynamic_control.ode import j_from_ode, run_ode
+        from moptipyapps.dynamic_control.system import System
+
+        def eq2(state, _t, control, out):      # damped rotation pushed by both control values
+            out[0] = -0.5 * state[0] - state[1] + 0.1 * control[0]
+            out[1] = state[0] - 0.5 * state[1] + 0.1 * control[1]
+        starts = np.array([[1.0, 0.5], [-0.5, 1.0]])
+        sys2 = System("two_controls", 2, 2, 2, 2, 0.3, starts, starts, 40, 4.0, 40, 4.0)
+        sys2.equations = eq2
+        ctrl2 = make_ann(2, 2, [2])
+        di = DCI(sys2, ctrl2)
+        for cls in (FigureOfMerit, FigureOfMeritLE):
+            for collect in (False, True):
+                f = cls(di, collect)
+                f.initialize()
+                x = np.array([rng.uniform(-1, 1) for _ in range(ctrl2.param_dims)])
+                v = float(f.evaluate(x.copy()))
+                evals += 1
+                js = [j_from_ode(run_ode(np.array(st), eq2, ctrl2.controller, x, 2, 40, 4.0), 2, 2, 0.3) for st in starts]
+                want = float(np.mean(js)) if cls is FigureOfMerit else float(np.expm1(np.mean(np.log1p(js))))
+                info = {"system": "2 states, 2 controls", "controller": ctrl2.name, "objective": cls.__name__, "x": x.tolist()}
+                if not (v == want or abs(v - want) <= 1e-9 * max(1.0, abs(want))):
+                    viol.append(("dynamic-control/two-control-values", info, f"evaluate={v}, recomputed with arrays of the declared sizes: {want}"))
+                if collect:
+                    sc, _df = f.get_differentials()
+                    if sc.shape[1] != 4:
+                        viol.append(("dynamic-control/collected-row-width", info, f"state+control rows have {sc.shape[1]} columns, expected 4"))
+    except Exception as ex:     # noqa: BLE001  (IndexError under NUMBA_BOUNDSCHECK=1: a kernel left its arrays)
+        import traceback
+        viol.append(("dynamic-control/raises", {"system": "2 states, 2 controls"}, repr(ex) + " | " + traceback.format_exc(limit=3)[-400:]))
     seen = set()
     viol = [v for v in viol if not (v[0] in seen or seen.add(v[0]))]
     return {"name": "spaces_vs_kernels", "evaluations": evals, "distinct_nontrivial": len(distinct),
